@@ -644,4 +644,44 @@ pub fn run(r: &mut Runner) {
     r.search("random-requests", r.scale(30_000, 1_500_000), 512, random_requests);
     r.search("mutated-requests", r.scale(20_000, 1_000_000), 1536, mutated_requests);
     let _ = Bytes::new();
+    // coverage-guided stage (thorough tier): text-rendered requests into S3Service::call, totality oracle in-target
+    if !r.quick() || r.replay.is_some() {
+        let mut seeds: Vec<Vec<u8>> = Vec::new();
+        for i in 0..400u64 {
+            let raw = r.seed_case("http-seeds", i, 768, |c| {
+                if i % 4 == 0 {
+                    Some(gen_random_request(c))
+                } else {
+                    let op = OPS[c.t.below(OPS.len())];
+                    c07::capture(c, op).map(|mut b| {
+                        if c.t.bool() {
+                            let signer = Signer { access_key: AK1.into(), secret: SK1.into(), region: "us-east-1".into(), service: "s3".into(), date16: now_date16(-1) };
+                            let signed: Vec<String> = b.headers.iter().map(|(n, _)| n.clone()).filter(|n| n.starts_with("x-amz-")).collect();
+                            signer.sign_header(&mut b, UNSIGNED, &signed);
+                        }
+                        RawReq { method: b.method.clone(), uri: b.uri(), headers: b.headers.iter().map(|(n, v)| (n.clone(), v.clone().into_bytes())).collect(), body: b.body.clone(), cuts: vec![], http2: false }
+                    })
+                }
+            });
+            let Some(raw) = raw else { continue };
+            // selector byte, request line, header lines, blank line, body
+            let mut s: Vec<u8> = vec![(i % 256) as u8];
+            s.extend_from_slice(format!("{} {}\n", raw.method, raw.uri).as_bytes());
+            for (n, v) in &raw.headers {
+                if v.contains(&b'\n') {
+                    continue;
+                }
+                s.extend_from_slice(n.as_bytes());
+                s.extend_from_slice(b": ");
+                s.extend_from_slice(v);
+                s.push(b'\n');
+            }
+            s.push(b'\n');
+            s.extend_from_slice(&raw.body);
+            if s.len() <= 8192 {
+                seeds.push(s);
+            }
+        }
+        r.fuzz("http_request", r.fuzz_runs(400_000), 8192, &seeds);
+    }
 }
